@@ -50,7 +50,7 @@ def cubic_expected(cub, cw, ss, rtt, now):
 
 class C17(Prop):
     id = "C17"
-    props_file = "Props/C17.v"
+    props_file = ["Props/C17.v", "Props/C17_Examples.v"]
     coq_imports = ["From ONL Require Import Base.Cmp Tcp.Sender Tcp.Cubic."]
     n_quick = 700
     n_thorough = 12000
